@@ -12,6 +12,9 @@
 //	hdip <s>                        HexDecodeInPlace     -> n=<n> err=<errtext|ok> buf=<buffer after>
 //	l2ip <x> / ip2l <s> / iprt <x>  LongToIPv4 / IPv4ToLong / round trip
 //	dg <algo> <in> <stdlib digest>  hashz digest helpers -> s= b= ts= tss= st= st1= stw= ste= ste4= sto= sth= sts= stz=<stream|none> mod=
+//	dgh <algo> <mode> <k> <in> <dig> history: 12 × (stream call whose reader fails after k bytes — mode errafter |
+//	                                witherr | timeout | panic —, then a valid call of the same and of every other
+//	                                stream helper on <in>) -> fail=<err|nil|panic> st=<digest> rounds=same others=ok
 //	dgz <algo> <n> <seed> <digest>  the same on a generated n-byte input (n around 4096, 32768, …) -> b= st=… mod=
 //	hm <algo> <key> <data> <mac>    hashz.Hmac           -> ss= sb= bs= bb= ts= tss= mod=
 //	b64e <enc> <in> <stdlib out>    Base64Encode         -> s= b= ts= tss= mod=
@@ -240,7 +243,7 @@ func (z *zeroThenData) Read(p []byte) (int, error) {
 	return z.r.Read(p)
 }
 
-func streamFields(a *digestAlgo, s []byte) string {
+func streamFields(lg *ledger, a *digestAlgo, s []byte) string {
 	parts := make([]string, 0, len(streamNames))
 	for _, name := range streamNames {
 		v := "none"
@@ -267,6 +270,7 @@ func streamFields(a *digestAlgo, s []byte) string {
 				r = &zeroThenData{r: &chunkReader{b: clone(s), n: 1 + len(s)/2}}
 			}
 			o, err := a.stream(r)
+			lg.keep(o)
 			if err != nil {
 				v = "err"
 			} else {
@@ -291,6 +295,68 @@ func bigInput(n, seed int) []byte {
 	return b
 }
 
+// ---- failing readers (history stream)
+
+var failModes = []string{"errafter", "witherr", "timeout", "panic"}
+
+func failModeIndex(m string) int {
+	for i, x := range failModes {
+		if x == m {
+			return i
+		}
+	}
+	return -1
+}
+
+var errBoom = fmt.Errorf("c15: injected reader failure")
+
+// failReader delivers data and then fails: "errafter" = (0, err) after all data was read in
+// two chunks; "witherr" = the last chunk comes together with the error (n > 0, err);
+// "timeout" = iotest.TimeoutReader (second Read fails); "panic" = panics after the data.
+type failReader struct {
+	mode string
+	data []byte
+	half bool
+}
+
+func newFailReader(mode string, data []byte) io.Reader {
+	if mode == "timeout" {
+		n := len(data) / 2
+		if n == 0 {
+			n = 1
+		}
+		return iotest.TimeoutReader(&chunkReader{b: append(clone(data), 'x'), n: n})
+	}
+	return &failReader{mode: mode, data: clone(data)}
+}
+
+func (f *failReader) Read(p []byte) (int, error) {
+	if len(f.data) > 1 && !f.half {
+		f.half = true
+		n := copy(p, f.data[:len(f.data)/2])
+		f.data = f.data[n:]
+		return n, nil
+	}
+	n := copy(p, f.data)
+	f.data = f.data[n:]
+	if len(f.data) > 0 {
+		return n, nil
+	}
+	switch f.mode {
+	case "witherr":
+		return n, errBoom
+	case "panic":
+		if n > 0 {
+			return n, nil
+		}
+		panic("c15: injected reader panic")
+	}
+	if n > 0 {
+		return n, nil
+	}
+	return 0, errBoom
+}
+
 // ---- implementation side
 
 func impl(c core.Case) []string {
@@ -305,14 +371,105 @@ func impl(c core.Case) []string {
 		}
 		return out
 	}
-	for _, l := range c.Lines[1:] {
+	lg := &ledger{}
+	for i, l := range c.Lines[1:] {
 		t := core.Toks(l)
-		out = append(out, core.Guard(func() string { return implOp(t) }))
+		lg.line = i + 1
+		o := core.Guard(func() string { return implOp(lg, t) })
+		// results ledger / input arenas: everything returned or passed in by EARLIER calls of
+		// this case must still be what it was (no pooled or shared backing memory)
+		if msg := lg.verify(i+2 == len(c.Lines)); msg != "" {
+			o += " LEDGER:" + msg
+		}
+		out = append(out, o)
 	}
 	return out
 }
 
-func implOp(t []string) string {
+// ledger keeps every slice / string a helper returned together with a deep copy, and every
+// input window together with its arena (canary bytes in front, behind and in the spare
+// capacity of the window).  verify() re-compares all of them.
+type ledger struct {
+	line    int
+	results []ledgerEntry
+	windows []*window
+}
+
+type ledgerEntry struct {
+	line int
+	b    []byte // the returned slice itself (same backing memory)
+	s    string // or the returned string itself
+	isS  bool
+	copy []byte
+}
+
+type window struct {
+	line  int
+	arena []byte
+	w     []byte // arena[canaryLen : canaryLen+n], capacity reaches into the trailing canaries
+	want  []byte // nil: the call may legitimately rewrite the window (HexDecodeInPlace)
+}
+
+const canaryLen = 16
+const canaryByte = 0xA5
+
+func (l *ledger) keep(v any) {
+	switch x := v.(type) {
+	case []byte:
+		l.results = append(l.results, ledgerEntry{line: l.line, b: x, copy: clone(x)})
+	case string:
+		l.results = append(l.results, ledgerEntry{line: l.line, s: x, isS: true, copy: []byte(strings.Clone(x))})
+	}
+}
+
+// win returns a copy of s that is a window of a larger arena: canaries around it and spare
+// capacity (filled with canaries) behind it.
+func (l *ledger) win(s []byte, readOnly bool) []byte {
+	arena := make([]byte, canaryLen+len(s)+canaryLen)
+	for i := range arena {
+		arena[i] = canaryByte
+	}
+	copy(arena[canaryLen:], s)
+	w := &window{line: l.line, arena: arena, w: arena[canaryLen : canaryLen+len(s)]}
+	if readOnly {
+		w.want = clone(s)
+	}
+	l.windows = append(l.windows, w)
+	return w.w
+}
+
+// verify re-compares the most recent 64 results / windows after every call and everything
+// after the last call of the case (keeps long corpus cases linear).
+func (l *ledger) verify(all bool) string {
+	results, windows := l.results, l.windows
+	if !all && len(results) > 64 {
+		results = results[len(results)-64:]
+	}
+	if !all && len(windows) > 64 {
+		windows = windows[len(windows)-64:]
+	}
+	for _, e := range results {
+		if e.isS && e.s != string(e.copy) {
+			return fmt.Sprintf("string-returned-by-line-%d-changed", e.line)
+		}
+		if !e.isS && !bytes.Equal(e.b, e.copy) {
+			return fmt.Sprintf("slice-returned-by-line-%d-changed", e.line)
+		}
+	}
+	for _, w := range windows {
+		for i := 0; i < canaryLen; i++ {
+			if w.arena[i] != canaryByte || w.arena[len(w.arena)-1-i] != canaryByte {
+				return fmt.Sprintf("memory-around-input-of-line-%d-written", w.line)
+			}
+		}
+		if w.want != nil && !bytes.Equal(w.w, w.want) {
+			return fmt.Sprintf("input-of-line-%d-modified", w.line)
+		}
+	}
+	return ""
+}
+
+func implOp(lg *ledger, t []string) string {
 	if len(t) == 0 {
 		return "bad-op"
 	}
@@ -332,31 +489,39 @@ func implOp(t []string) string {
 			return "bad-op"
 		}
 		str := string(s)
-		bs := clone(s)
+		bs := lg.win(s, true)
 		v1, err1 := strz.ParseUint(str, base, bits)
 		v2, err2 := strz.ParseUint(bs, base, bits)
 		mod := !bytes.Equal(bs, s) || str != string(s)
 		return fmt.Sprintf("s=%d,%s b=%d,%s mod=%v", v1, puClass(err1, base, bits), v2, puClass(err2, base, bits), mod)
 	case t[0] == "he" && len(t) == 2:
 		s := arg(1)
-		str, bs := string(s), clone(s)
+		str, bs := string(s), lg.win(s, true)
 		o1 := strz.HexEncode(str)
+		lg.keep(o1)
 		o2 := strz.HexEncode(bs)
+		lg.keep(o2)
 		o3 := strz.HexEncodeToString(bs)
+		lg.keep(o3)
 		o4 := strz.HexEncodeToString(str)
+		lg.keep(o4)
 		mod := !bytes.Equal(bs, s) || str != string(s)
 		return fmt.Sprintf("s=%s b=%s ts=%s tss=%s mod=%v", hx(o1), hx(o2), hx([]byte(o3)), hx([]byte(o4)), mod)
 	case t[0] == "hd" && len(t) == 2:
 		s := arg(1)
-		str, bs := string(s), clone(s)
+		str, bs := string(s), lg.win(s, true)
 		o1, e1 := strz.HexDecode(str)
+		lg.keep(o1)
 		o2, e2 := strz.HexDecode(bs)
+		lg.keep(o2)
 		o3, e3 := strz.HexDecodeToString(bs)
+		lg.keep(o3)
 		o4, e4 := strz.HexDecodeToString(str)
+		lg.keep(o4)
 		mod := !bytes.Equal(bs, s) || str != string(s)
 		return fmt.Sprintf("s=%s,%s b=%s,%s ts=%s,%s tss=%s,%s mod=%v", hx(o1), errText(e1), hx(o2), errText(e2), hx([]byte(o3)), errText(e3), hx([]byte(o4)), errText(e4), mod)
 	case t[0] == "hdip" && len(t) == 2:
-		buf := clone(arg(1))
+		buf := lg.win(arg(1), false)
 		n, err := strz.HexDecodeInPlace(buf)
 		return fmt.Sprintf("n=%d err=%s buf=%s", n, errText(err), hx(buf))
 	case t[0] == "l2ip" && len(t) == 2:
@@ -380,14 +545,67 @@ func implOp(t []string) string {
 		}
 		s := arg(2)
 		_ = arg(3)
-		str, bs := string(s), clone(s)
+		str, bs := string(s), lg.win(s, true)
 		o1 := a.s(str)
+		lg.keep(o1)
 		o2 := a.b(bs)
+		lg.keep(o2)
 		o3 := a.ts(bs)
+		lg.keep(o3)
 		o3s := a.tss(str)
-		stf := streamFields(a, s)
+		lg.keep(o3s)
+		stf := streamFields(lg, a, s)
 		mod := !bytes.Equal(bs, s) || str != string(s)
 		return fmt.Sprintf("s=%s b=%s ts=%s tss=%s %s mod=%v", hx(o1), hx(o2), hx([]byte(o3)), hx([]byte(o3s)), stf, mod)
+	case t[0] == "dgh" && len(t) == 6:
+		// history: a stream call whose reader fails after k bytes (non-EOF error, error together
+		// with the last data, timeout, panic), immediately followed on the same goroutine by a
+		// valid call of the same helper and of every other stream helper; repeated.
+		a := digestByName(t[1])
+		k, e1 := strconv.Atoi(t[3])
+		if a == nil || a.stream == nil || e1 != nil || k < 0 || k > 1<<16 || failModeIndex(t[2]) < 0 {
+			return "bad-op"
+		}
+		s := arg(4)
+		_ = arg(5)
+		first, rounds, others := "", "same", "ok"
+		for r := 0; r < 12; r++ {
+			fail := "nil"
+			if core.Guard(func() string {
+				o, err := a.stream(newFailReader(t[2], bigInput(k, r+1)))
+				lg.keep(o)
+				if err != nil {
+					fail = "err"
+				}
+				return ""
+			}) == "panic" {
+				fail = "panic"
+			}
+			o, err := a.stream(&chunkReader{b: clone(s), n: 1 + len(s)/2})
+			lg.keep(o)
+			v := hx(o)
+			if err != nil {
+				v = "err"
+			}
+			cur := "fail=" + fail + " st=" + v
+			if r == 0 {
+				first = cur
+			} else if cur != first && rounds == "same" {
+				rounds = fmt.Sprintf("round-%d:%s", r, strings.ReplaceAll(cur, " ", ","))
+			}
+			for i := range digestAlgos {
+				b := &digestAlgos[i]
+				if b.stream == nil || b == a {
+					continue
+				}
+				o2, err2 := b.stream(&chunkReader{b: clone(s), n: 1 + len(s)/2})
+				lg.keep(o2)
+				if (err2 != nil || string(o2) != hex.EncodeToString(b.sum(s))) && others == "ok" {
+					others = b.name
+				}
+			}
+		}
+		return first + " rounds=" + rounds + " others=" + others
 	case t[0] == "dgz" && len(t) == 5:
 		// large input generated from (n, seed): only the stream helpers and the []byte one-shot form
 		a := digestByName(t[1])
@@ -398,9 +616,10 @@ func implOp(t []string) string {
 		}
 		_ = arg(4)
 		s := bigInput(n, seed)
-		bs := clone(s)
+		bs := lg.win(s, true)
 		o2 := a.b(bs)
-		stf := streamFields(a, s)
+		lg.keep(o2)
+		stf := streamFields(lg, a, s)
 		mod := !bytes.Equal(bs, s)
 		return fmt.Sprintf("b=%s %s mod=%v", hx(o2), stf, mod)
 	case t[0] == "hm" && len(t) == 5:
@@ -410,13 +629,19 @@ func implOp(t []string) string {
 		}
 		k, d := arg(2), arg(3)
 		_ = arg(4)
-		ks, kb, ds, db := string(k), clone(k), string(d), clone(d)
+		ks, kb, ds, db := string(k), lg.win(k, true), string(d), lg.win(d, true)
 		o1 := hashz.Hmac(ks, ds, h)
+		lg.keep(o1)
 		o2 := hashz.Hmac(ks, db, h)
+		lg.keep(o2)
 		o3 := hashz.Hmac(kb, ds, h)
+		lg.keep(o3)
 		o4 := hashz.Hmac(kb, db, h)
+		lg.keep(o4)
 		o5 := hashz.HmacToString(kb, ds, h)
+		lg.keep(o5)
 		o6 := hashz.HmacToString(ks, db, h)
+		lg.keep(o6)
 		mod := !bytes.Equal(kb, k) || !bytes.Equal(db, d) || ks != string(k) || ds != string(d)
 		return fmt.Sprintf("ss=%s sb=%s bs=%s bb=%s ts=%s tss=%s mod=%v", hx(o1), hx(o2), hx(o3), hx(o4), hx([]byte(o5)), hx([]byte(o6)), mod)
 	case t[0] == "b64e" && len(t) == 4:
@@ -426,11 +651,15 @@ func implOp(t []string) string {
 		}
 		s := arg(2)
 		_ = arg(3)
-		str, bs := string(s), clone(s)
+		str, bs := string(s), lg.win(s, true)
 		o1 := strz.Base64Encode(str, enc)
+		lg.keep(o1)
 		o2 := strz.Base64Encode(bs, enc)
+		lg.keep(o2)
 		o3 := strz.Base64EncodeToString(bs, enc)
+		lg.keep(o3)
 		o4 := strz.Base64EncodeToString(str, enc)
+		lg.keep(o4)
 		mod := !bytes.Equal(bs, s) || str != string(s)
 		return fmt.Sprintf("s=%s b=%s ts=%s tss=%s mod=%v", hx(o1), hx(o2), hx([]byte(o3)), hx([]byte(o4)), mod)
 	case t[0] == "b64d" && len(t) == 5:
@@ -440,11 +669,15 @@ func implOp(t []string) string {
 		}
 		s := arg(2)
 		_ = arg(3)
-		str, bs := string(s), clone(s)
+		str, bs := string(s), lg.win(s, true)
 		o1, e1 := strz.Base64Decode(str, enc)
+		lg.keep(o1)
 		o2, e2 := strz.Base64Decode(bs, enc)
+		lg.keep(o2)
 		o3, e3 := strz.Base64DecodeToString(bs, enc)
+		lg.keep(o3)
 		o4, e4 := strz.Base64DecodeToString(str, enc)
+		lg.keep(o4)
 		mod := !bytes.Equal(bs, s) || str != string(s)
 		return fmt.Sprintf("s=%s,%s b=%s,%s ts=%s,%s tss=%s,%s mod=%v", hx(o1), errText(e1), hx(o2), errText(e2), hx([]byte(o3)), errText(e3), hx([]byte(o4)), errText(e4), mod)
 	}
@@ -502,6 +735,9 @@ func checkOp(t []string, out string) *core.Failure {
 			}
 		}
 		return nil
+	}
+	if i := strings.Index(out, " LEDGER:"); i >= 0 {
+		return fail("result-or-input-changed-later", "%s (a slice/string returned earlier, an input, or the memory around an input changed during a later call)", out[i+8:])
 	}
 	if v, ok := m["mod"]; ok && v != "false" {
 		return fail(t[0]+"-input-modified", "the input buffer was modified by the call")
@@ -578,6 +814,23 @@ func checkOp(t []string, out string) *core.Failure {
 		if a.stream != nil {
 			return allEq("digest-stream-"+t[1], want, streamNames...)
 		}
+	case "dgh":
+		a := digestByName(t[1])
+		s, _ := unhx(t[4])
+		sum := a.sum(s)
+		if hx(sum) != t[5] {
+			return fail("harness-stale-digest", "the digest carried by the line is not the standard library's")
+		}
+		want := hx([]byte(hex.EncodeToString(sum)))
+		if m["st"] != want {
+			return fail("digest-stream-after-failure-"+t[1], "after a %s stream call that failed (%s after %s bytes) the next valid call of the same helper returned %s, standard library gives %s", t[1], t[2], t[3], readable(m["st"]), readable(want))
+		}
+		if m["rounds"] != "same" {
+			return fail("digest-stream-after-failure-"+t[1], "repeating (failing call, valid call) gave different results: %s", m["rounds"])
+		}
+		if m["others"] != "ok" {
+			return fail("digest-stream-after-failure-"+m["others"], "after a failed %s stream call the %s stream helper returned a wrong digest", t[1], m["others"])
+		}
 	case "dgz":
 		a := digestByName(t[1])
 		n, _ := strconv.Atoi(t[2])
@@ -638,7 +891,7 @@ func nonTrivial(c core.Case, out []string) bool {
 			if len(t[1]) >= 4 {
 				return true
 			}
-		case "dg", "dgz", "hm", "b64e", "b64d":
+		case "dg", "dgz", "dgh", "hm", "b64e", "b64d":
 			return true
 		}
 	}
